@@ -38,6 +38,9 @@ fn filter_bases() -> Vec<Vec<u8>> {
         format!(r#"{{"ids":["{ID1}"],"authors":["{PK1}","{ID1}"],"kinds":[1,5,30023],"since":1702161345,"until":1702161399,"limit":10}}"#).into_bytes(),
         format!(r##"{{"#e":["{ID1}","{PK1}"],"#p":["{PK1}"],"kinds":[7],"#t":["a","b\n\"c\"","é"]}}"##).into_bytes(),
         format!("{{ \"limit\" : 0 , \"#d\" : [ \"\" ] ,\n \"authors\" : [ \"{PK1}\" ] , \"since\" : 0 }}").into_bytes(),
+        // a tag member last, so that truncations / corruptions of its values reach the end of the text
+        br##"{"#e":["abc"]}"##.to_vec(),
+        br##"{"kinds":[1],"#t":["a","b]","[c","d\\"]}"##.to_vec(),
     ]
 }
 
@@ -47,6 +50,8 @@ fn tags_bases() -> Vec<Vec<u8>> {
         b"[[]]".to_vec(),
         br#"[["a","b"],["c"],[],["d","\u00e9\n","\"q\""]]"#.to_vec(),
         b"[ [ \"x\" , \"y\" ] , [ \"z\" ] ]".to_vec(),
+        // structural characters and trailing backslashes inside strings
+        br#"[["a]","[b","c\\"],["\\","],[\"","{"]]"#.to_vec(),
     ]
 }
 
@@ -181,6 +186,29 @@ fn junk(kind: &str, entry: &str) -> Vec<Vec<u8>> {
             v.extend_from_slice(&[0xf7, 0xbf, 0xbf, 0xbf, b'"', b'}']);
             v
         }],
+        // the binary tags section is addressed with u16 offsets: sections that end just below / at / just above 65535 bytes,
+        // followed by 0..3 empty tags (2 bytes each) or, in a filter, by further empty tag members
+        ("u16_boundary", "tags") | ("u16_boundary", "event") => {
+            let mut v = vec![];
+            for n in (65512..=65532).step_by(1) {
+                for k in 0..=3usize {
+                    if (n + k) % 2 == 1 && k > 1 { continue; }
+                    let t = format!("[[\"{}\"]{}]", "a".repeat(n), ",[]".repeat(k));
+                    v.push(if entry == "tags" { t.into_bytes() } else { ev_with(&format!("\"tags\":{}", t)) });
+                }
+            }
+            v
+        }
+        ("u16_boundary", "filter") => {
+            let mut v = vec![];
+            for n in 65500..=65530usize {
+                for k in 0..=2usize {
+                    let more = ["", ",\"#p\":[]", ",\"#p\":[],\"#q\":[\"\"]"][k];
+                    v.push(format!("{{\"#e\":[\"{}\"]{}}}", "a".repeat(n), more).into_bytes());
+                }
+            }
+            v
+        }
         ("empty", _) => vec![vec![]],
         ("only_space", _) => vec![b" ".to_vec(), b"  \n\t ".to_vec()],
         ("big_string", "unescape") => vec![{
